@@ -283,6 +283,12 @@ static void pool_hook(void *cookie, const char *what)
 	struct cookie *c = cookie;
 
 	tr("\"e\":\"Hook\",\"op\":\"%s\",\"o\":%d}", what, (c && c->magic == COOKIE_MAGIC) ? c->id : -1);
+	if (c && c->magic == COOKIE_MAGIC) {
+		/* reactions of the program's hook: R pool <id> <1 start | 2 stop> <occ> <op> */
+		int band = what[2] == 'a' ? 1 : 2;
+		int occ = ++O[K_POOL][c->id].occ[band];
+		run_ops('R', K_POOL, c->id, band, occ, 0);
+	}
 }
 static void pool_start(void *c) { pool_hook(c, "start"); }
 static void pool_stop(void *c) { pool_hook(c, "stop"); }
@@ -1024,8 +1030,19 @@ static int env_at_hang(void)
 
 /* the harness's own per-thread state user: observes the tls hook pairing */
 #include <iv_tls.h>
-static void tls_init_hook(void *p) { tr("\"e\":\"Tls\",\"op\":\"init\"}"); }
-static void tls_deinit_hook(void *p) { tr("\"e\":\"Tls\",\"op\":\"deinit\"}"); }
+static struct iv_tls_user harness_tls_user;
+static void tls_init_hook(void *p)
+{
+	memcpy(p, "ivh-tls-magic-ok", 16);
+	tr("\"e\":\"Tls\",\"op\":\"init\",\"ok\":1}");
+}
+/* the tear-down hook of a module may use the API (iv_tls(3)): the thread's state is still there */
+static void tls_deinit_hook(void *p)
+{
+	void *q = iv_tls_user_ptr(&harness_tls_user);
+	int ok = q == p && !memcmp(p, "ivh-tls-magic-ok", 16);
+	tr("\"e\":\"Tls\",\"op\":\"deinit\",\"ok\":%d}", ok);
+}
 static struct iv_tls_user harness_tls_user = {
 	.sizeof_state = 16,
 	.init_thread = tls_init_hook,
